@@ -58,7 +58,8 @@ def enc_action(a):
     return [2, 0]
 
 
-def enc_table(num, table):
+def enc_table(num, table, finish_of=None):
+    """`finish_of(terminal, flag)`: replaces the finish flag of a cell (reference tables)."""
     states = table.states
     # state ids must be list positions for the model
     assert all(s.state_id == i for i, s in enumerate(states)), "state ids are not positions"
@@ -69,6 +70,8 @@ def enc_table(num, table):
         ff = list(s.finish_flags)
         out.append(len(items))
         for (t, acts), fin in zip(items, ff):
+            if finish_of is not None:
+                fin = finish_of(t, fin)
             out += [num.term(t), 1 if fin else 0, len(acts)]
             for a in acts:
                 out += enc_action(a)
